@@ -14,6 +14,7 @@ import json
 import os
 import random
 import time
+import unicodedata
 
 from .. import common, tlc
 from ..common import Raw
@@ -251,6 +252,92 @@ class RealRun:
         return False
 
 
+C01_CODES = [("4-alpha-beta", "4-alpha-beta"), ("4-alpha-beta", "4-alpha-betb"), ("4-alpha-beta", "4-Alpha-beta"),
+             ("4-alpha-beta", "5-alpha-beta"), ("4-caf\u00e9-beta", "4-cafe\u0301-beta"), ("4-caf\u00e9-beta", "4-cafe-beta"),
+             ("4-alpha-beta", "4-alpha-beta-"), ("4-", "4-"), ("4-alpha-beta", "4-alpha")]
+C01_PURPOSES = [("wormhole:test", 32), ("other", 32), ("wormhole:test", 16), ("\u00fcn\u00efcode", 64), ("", 1)]
+
+
+def c01_case(tid, codes, appids, order, rng):
+    """two wormholes with the given codes / appids; `order` decides who moves first and whether B's code is
+    entered only after A's PAKE message has arrived (the Key.S00 -> S01 stash path)"""
+    run = RealRun(tid, "c01-family", appids=appids)
+    w = run.world
+    a_code, b_code = codes
+    first, second = ("A", "B") if order != "b-first" else ("B", "A")
+    cmap = {"A": a_code, "B": b_code}
+    run.apply({"a": "ConnOpen", "c": "A"})
+    run.apply({"a": "ConnOpen", "c": "B"})
+    if order == "stash":
+        # B types the nameplate first (input flow), A's PAKE arrives, then B finishes the words
+        run.apply({"a": "AppSetCode", "c": "A", "code": a_code})
+        run.apply({"a": "AppInput", "c": "B"})
+        np, _, words = b_code.partition("-")
+        run.apply({"a": "AppHelper", "c": "B", "m": "choose_nameplate", "args": [np]})
+        run.drain()
+        run.apply({"a": "AppHelper", "c": "B", "m": "choose_words", "args": [words]})
+    else:
+        run.apply({"a": "AppSetCode", "c": first, "code": cmap[first]})
+        if order == "late":
+            run.drain()
+        run.apply({"a": "AppSetCode", "c": second, "code": cmap[second]})
+    for c in ("A", "B"):
+        run.apply({"a": "AppSend", "c": c, "data": ("m:%s:0" % c).encode().hex()})
+    drained = run.drain()
+    for c in ("A", "B"):
+        for purpose, n in C01_PURPOSES:
+            run.apply({"a": "AppDerive", "c": c, "purpose": purpose, "n": n})
+    match = unicodedata.normalize("NFC", a_code) == unicodedata.normalize("NFC", b_code) and appids["A"] == appids["B"]
+    goal = drained and match
+    return run, goal, drained
+
+
+def c02_case(tid, victim, frame_index, op, rng):
+    """honest exchange of two messages each way; the server manipulates the frame_index-th message frame
+    delivered to `victim` (byte-level variants chosen by rng)"""
+    run = RealRun(tid, "c02-family")
+    w = run.world
+    for c in ("A", "B"):
+        run.apply({"a": "ConnOpen", "c": c})
+        run.apply({"a": "AppSetCode", "c": c, "code": "4-alpha-beta"})
+    for c in ("A", "B"):
+        for k in range(2):
+            run.apply({"a": "AppSend", "c": c, "data": ("m:%s:%d" % (c, k)).encode().hex()})
+    seen = 0
+    done = False
+    for _ in range(400):
+        acts = w.enabled(faults=False)
+        if not acts:
+            break
+        a = acts[0]
+        if not done and a["a"] == "Deliver":
+            conn = w.conn(a["k"])
+            if conn.client.name == victim and conn.s2c and conn.s2c[0]["type"] == "message":
+                if seen == frame_index:
+                    fr = conn.s2c[0]
+                    other = [c for c in w.clients.values() if c.name != victim][0]
+                    t = dict(op)
+                    if t["op"] == "side":
+                        t["v"] = {"own": conn.client.side, "peer": other.side, "x": "f0f0f0f0f0"}[t["v"]]
+                        if t["v"] == fr["side"]:
+                            t["v"] = "f0f0f0f0f0"
+                    if t["op"] == "flip":
+                        n = len(fr["body"]) // 2
+                        t["pos"] = {"first": 0, "last": n - 1, "mid": n // 2, "rand": rng.randrange(max(1, n))}[t.get("where", "rand")]
+                        t["bit"] = rng.randrange(8)
+                    if t["op"] == "replay":
+                        # the same body delivered again under another phase label
+                        run.apply({"a": "Dup", "k": conn.id, "m": 0})
+                        run.apply({"a": "TamperS2C", "k": conn.id, "i": len(conn.s2c) - 1, "op": "phase", "v": t["v"]})
+                    else:
+                        run.apply(dict({"a": "TamperS2C", "k": conn.id, "i": 0}, **t))
+                    done = True
+                seen += 1
+        run.apply(a)
+    drained = run.drain()
+    return run, False, drained
+
+
 def words_class(code):
     np, _, words = code.partition("-")
     for k, v in WORDS.items():
@@ -333,6 +420,7 @@ def random_real_walk(tid, rng, prop, steps=60):
         codes["B"] = rng.choice(["4-gamma-delta", "5-alpha-beta"])
     coded = set()
     closed = set()
+    late_budget = {"A": 4, "B": 4}
     for _ in range(steps):
         acts = []
         for a in w.enabled(faults=True):
@@ -347,6 +435,8 @@ def random_real_walk(tid, rng, prop, steps=60):
             if t in ("Serve", "Deliver"):
                 acts.append(a)      # bias towards progress
         for c in ("A", "B"):
+            if w.clients[c].mode == "deferred" and prop in ("C18", "C08", "C14") and rng.random() < 0.12 and late_budget[c] > 0:
+                acts.append({"a": "AppGet", "c": c, "kind": rng.choice(["code", "key", "verifier", "versions", "message", "welcome"])})
             if c in closed:
                 continue
             if c not in coded:
@@ -379,8 +469,17 @@ def random_real_walk(tid, rng, prop, steps=60):
             closed.add(a["c"])
         elif t in ("Drop", "Dup", "SwapS2C"):
             budget[t] -= 1
+        elif t == "AppGet":
+            late_budget[a["c"]] -= 1
         run.apply(a, spec_act=world_to_spec(run, a))
     drained = run.drain()
+    if prop in ("C18", "C08") :
+        # after everything: get_*() issued after the closed notification must fail, not hang
+        for c in ("A", "B"):
+            cl = w.clients[c]
+            if cl.mode == "deferred" and any(k == "closed" for k, _ in cl.events):
+                for kind in ("code", "message", "verifier"):
+                    run.apply({"a": "AppGet", "c": c, "kind": kind})
     goal = drained and not closed and coded == {"A", "B"} and codes["A"] == codes["B"] and \
         all(w.live_conn(c) is not None for c in w.clients.values())
     return run, goal, drained
@@ -547,6 +646,47 @@ def run_pipeline(prop, tier, v, quick):
         cov["sim_behaviours"] = nbeh
         cov["replayed_behaviours"] = nbeh + len(cexs)
         cov["replay_drift_count"] = ndrift
+        # ---- 2b. targeted families (byte-level / spelling-level concretisations of the model's cases)
+        if prop == "C01":
+            fam = []
+            for codes in C01_CODES:
+                for appids in ({"A": "appid", "B": "appid"}, {"A": "appid", "B": "appid2"}):
+                    for order in ("a-first", "b-first", "late", "stash"):
+                        if quick and order in ("b-first",) and codes != C01_CODES[0]:
+                            continue
+                        fam.append((codes, appids, order))
+            for (codes, appids, order) in fam:
+                tid += 1
+                try:
+                    run_, goal, drained = c01_case(tid, codes, appids, order, rng)
+                except Exception as e:
+                    cov.setdefault("family_errors", []).append(repr(e)[:120])
+                    continue
+                runs[tid] = run_
+                records.append(run_.finish(drained, goal=goal))
+            cov["c01_family_cases"] = len(fam)
+        if prop == "C02":
+            ops = [{"op": "side", "v": "own"}, {"op": "side", "v": "x"}, {"op": "phase", "v": "pake"}, {"op": "phase", "v": "version"},
+                   {"op": "phase", "v": "0"}, {"op": "phase", "v": "1"}, {"op": "phase", "v": "7"},
+                   {"op": "flip", "where": "first"}, {"op": "flip", "where": "last"}, {"op": "flip", "where": "mid"}, {"op": "flip", "where": "rand"},
+                   {"op": "truncate"}, {"op": "extend"}, {"op": "replay", "v": "1"}, {"op": "replay", "v": "version"}]
+            n = 0
+            for victim in ("A", "B"):
+                for idx in range(7):
+                    for op in ops:
+                        if quick and (idx + len(op.get("v", "")) + n) % 3 and victim == "B":
+                            n += 1
+                            continue
+                        n += 1
+                        tid += 1
+                        try:
+                            run_, goal, drained = c02_case(tid, victim, idx, op, random.Random(seed * 77 + tid))
+                        except Exception as e:
+                            cov.setdefault("family_errors", []).append(repr(e)[:120])
+                            continue
+                        runs[tid] = run_
+                        records.append(run_.finish(drained, goal=False))
+            cov["c02_family_cases"] = n
         # ---- 3. code -> spec: random schedules on the real system
         nrand = 120 if quick else 1200
         for _ in range(nrand):
